@@ -244,6 +244,18 @@ Proof.
   repeat (break_match; cbn [fst snd]); discriminate.
 Qed.
 
+Theorem filter_drops r w data k h t0 rts s x a :
+  q_sep (r_qos r) = Some s ->
+  In x (r_samples r) -> s_inst x = h -> s_ts x = Some a -> a <= t0 < a + s ->
+  (snd (add_change r w data k h (Some t0) rts) = NotAdded \/
+   snd (add_change r w data k h (Some t0) rts) = AddError) /\
+  r_samples (fst (add_change r w data k h (Some t0) rts)) = r_samples r.
+Proof.
+  intros Hs Hx Hh Ha Hc.
+  pose proof (add_change_filtered r w data k h (Some t0) rts (of_interest_close r h t0 s x a Hs Hx Hh Ha Hc)) as H.
+  split; [exact H|]. apply add_change_added_iff. destruct H as [-> | ->]; discriminate.
+Qed.
+
 (* ------------------------------------------------------------------ the invariant *)
 (* complement of class 1, relative to the cache: each change carries a source timestamp
    not earlier than any sample of its instance in the cache *)
@@ -681,4 +693,26 @@ Proof.
   cbv zeta. repeat split; try (vm_compute; reflexivity).
   - intros x [].
   - cbn [arrives_in_order]. intros x Hx _. vm_compute in Hx. destruct Hx.
+Qed.
+
+Theorem no_over_filtering_both r w data k h t0 rts s :
+  q_sep (r_qos r) = Some s -> q_excl (r_qos r) = false ->
+  (forall x a, In x (r_samples r) -> s_inst x = h -> s_ts x = Some a -> a + s <= t0) ->
+  of_interest r h (Some t0) = true /\
+  snd (add_change r w data k h (Some t0) rts) <> NotAdded.
+Proof.
+  intros Hs He Far. split; [now apply (of_interest_far r h t0 s)|now apply (no_over_filtering r w data k h t0 rts s)].
+Qed.
+
+Definition nv_ops : list op :=
+  [OpAdd 1 1 KAlive (Some 10) 100 10; OpAdd 1 1 KAlive (Some 17) 101 20;
+   OpAdd 1 2 KAlive (Some 17) 102 25; OpAdd 1 1 KAlive (Some 18) 103 30].
+Lemma nonvacuous :
+  ts_monotone nv_ops /\ forallb (fun o => negb (is_take o)) nv_ops = true /\
+  snd (run_obs (init_reader wq) nv_ops) = [ObsAdd Added; ObsAdd NotAdded; ObsAdd Added; ObsAdd Added] /\
+  map s_data (r_samples (run wq nv_ops)) = [100; 102; 103].
+Proof.
+  split; [|repeat split; vm_compute; reflexivity].
+  cbn [ts_monotone nv_ops]. repeat split; intros w' k' t' d' rts' H; cbn [In] in H;
+    repeat (destruct H as [H|H]; [inversion H; subst; reflexivity || (exfalso; congruence)|]); try destruct H.
 Qed.
